@@ -29,11 +29,12 @@ read over an arbitrary ordered field `F` through `fieldScalar T`.  The libm fact
   (`…_deflected` variants: same statements for `random uniform distribution deflected`.)
   These are exact-arithmetic statements; in doubles the sum is one up to rounding.
 * `C15_uniform_in_bounds` — `a ≤ (b−a)·u + a ≤ b` for `u ∈ [0,1)`, `a ≤ b` (`< b` when `a < b`);
-  `C15_random_composition_bounds_index0` — the random composition model draws in `[min value[0], max value[0]]` for EVERY listed
-  composition: the model, like composition/random.cc, indexes the bounds with `0`;
-  `C15_random_composition_bounds_full` (a `Prop`) is the per-composition statement one would expect (`[min value[i], max value[i]]`
-  for the `i`-th listed composition) and `C15_random_composition_bounds_full_false` REFUTES it with a two-composition model
-  (bounds `[0, 0.1]` and `[0.5, 1]`, every draw `1/2`: composition 1 receives `0.05`).
+  `C15_random_composition_bounds` — inside its depth range the random composition model gives the `i`-th listed composition
+  `applyOp op old v` with the drawn value `v ∈ [min value[i], max value[i]]` (`v < max value[i]` when the bounds differ): every
+  composition is drawn from its OWN bounds.  (Before the upstream commit 'fix: random composition model drew every listed
+  composition from the bounds of the first one' composition/random.cc indexed the bounds with `0` for every listed composition;
+  an earlier version of this file proved that behaviour and refuted the per-composition statement with a two-composition world.
+  The defect was fixed upstream, the model follows, and the statement is now a theorem.)
 * `C15_deterministic`, `C15_deterministic_history`, `C15_seed_deterministic` — a query is a function
   `G → Except Err (answer × G)`: equal engine states give equal answers and equal new states; a whole query history from equal
   states gives equal answer lists; the engine state after seeding depends on the seed modulo 2³² only.  These are
@@ -268,20 +269,21 @@ theorem C15_uniform_in_bounds (a b u : F) (hab : a ≤ b) (hu0 : 0 ≤ u) (hu1 :
   have : 0 < (b - a) * (1 - u) := mul_pos (sub_pos.mpr h) (sub_pos.mpr hu1)
   nlinarith
 
-/-- **C15** the random composition model, inside its depth range and for ANY listed composition `n`, combines the old value with a
-draw from `[min value[0], max value[0]]` — index 0 of the bounds, whichever position `n` has in `compositions` (as in the code) -/
-theorem C15_random_composition_bounds_index0 (T : Transc F)
+/-- **C15** the random composition model, inside its depth range, for the composition `n` listed at position `i`: the value drawn
+(before the operation is applied) lies in `[min value[i], max value[i]]` — the composition's own bounds — and the result is
+`applyOp op old v` -/
+theorem C15_random_composition_bounds (T : Transc F)
     (hcan : ∀ g : G, 0 ≤ (RandGen.canonical (R := F) g).1 ∧ (RandGen.canonical (R := F) g).1 < 1)
     (rng : DepthRange F) (op : Op) (comps : List Nat) (minValue maxValue : List F) (ctx : Ctx F) (q : Query F)
-    (n : Nat) (old : F) (lm : F × F) (a b : F)
+    (n : Nat) (old : F) (lm : F × F) (i : Nat) (a b : F)
     (hin : @DepthRange.locals F (fieldScalar T) rng ctx q false = .ok (some lm))
-    (hn : comps.contains n = true) (ha : minValue[0]? = some a) (hb : maxValue[0]? = some b) (hab : a ≤ b) :
+    (hi : findComposition comps n = some i) (ha : minValue[i]? = some a) (hb : maxValue[i]? = some b) (hab : a ≤ b) :
     Post (G := G) (@CompModel.get F (fieldScalar T) G _ (.random rng op comps minValue maxValue) ctx q n old)
-      (fun v => ∃ c, a ≤ c ∧ c ≤ b ∧ (a < b → c < b) ∧ v = @applyOp F (fieldScalar T) op old c) := by
+      (fun r => ∃ v, a ≤ v ∧ v ≤ b ∧ (a < b → v < b) ∧ r = @applyOp F (fieldScalar T) op old v) := by
   unfold CompModel.get
-  have hia : idx minValue 0 = .ok a := by simp [idx, ha]
-  have hib : idx maxValue 0 = .ok b := by simp [idx, hb]
-  simp only [hin, hn, hia, hib, if_true]
+  have hia : idx minValue i = .ok a := by simp [idx, ha]
+  have hib : idx maxValue i = .ok b := by simp [idx, hb]
+  simp only [hin, hi, hia, hib]
   refine Post.bind (P := fun r => r = some lm) (Post.liftE fun a h => (Except.ok.inj h).symm) fun r hr => ?_
   subst hr
   simp only
@@ -296,22 +298,11 @@ theorem C15_random_composition_bounds_index0 (T : Transc F)
 
 end
 
-/-- the per-composition reading of "random compositions lie within their configured bounds": the `i`-th listed composition is drawn
-from `[min value[i], max value[i]]`.  FALSE for the model (and the code): see `C15_random_composition_bounds_full_false`. -/
-def C15_random_composition_bounds_full : Prop :=
-  ∀ (F : Type) [Field F] [LinearOrder F] [IsStrictOrderedRing F] (G : Type) [RandGen G F] (T : Transc F),
-    (∀ g : G, 0 ≤ (RandGen.canonical (R := F) g).1 ∧ (RandGen.canonical (R := F) g).1 < 1) →
-    ∀ (rng : DepthRange F) (op : Op) (comps : List Nat) (minValue maxValue : List F) (ctx : Ctx F) (q : Query F)
-      (n : Nat) (old : F) (lm : F × F) (i : Nat) (a b : F),
-      @DepthRange.locals F (fieldScalar T) rng ctx q false = .ok (some lm) →
-      findComposition comps n = some i → minValue[i]? = some a → maxValue[i]? = some b → a ≤ b →
-      Post (G := G) (@CompModel.get F (fieldScalar T) G _ (.random rng op comps minValue maxValue) ctx q n old)
-        (fun v => ∃ c, a ≤ c ∧ c ≤ b ∧ v = @applyOp F (fieldScalar T) op old c)
-
-namespace C15cex
+/-! a small concrete world over `ℚ` used by the examples below -/
+namespace C15ex
 /-- a generator whose every draw is `1/2` -/
 @[reducible] def halfGen : RandGen Unit ℚ := ⟨fun _ => (1 / 2, ())⟩
-/-- libm members are irrelevant for the counterexample -/
+/-- libm members are irrelevant here -/
 def T0 : Transc ℚ :=
   ⟨id, id, id, id, id, id, id, id, id, id, id, id, id, id, fun a _ => a, fun a _ => a, fun a _ => a, 0, 0, 0, 0, 0⟩
 def ctx0 : Ctx ℚ := ⟨⟨false, default, 0⟩, 0, 0, false, 0, 0, 0, 0⟩
@@ -326,30 +317,19 @@ theorem locals0 : @DepthRange.locals ℚ (fieldScalar T0) rng0 ctx0 q0 false = .
   simp [DepthRange.locals, rng0, q0, DepthRange.minDepth, DepthRange.maxDepth, Surface.constantOf, Surface.localOr,
     h1, h2, bind, Except.bind, pure, Except.pure]
 
-/-- compositions `[0, 1]` with bounds `[0, 0.1]` and `[0.5, 1]`: composition 1 receives `(0.1 − 0)·½ + 0 = 0.05` -/
-theorem get0 : @CompModel.get ℚ (fieldScalar T0) Unit halfGen (.random rng0 .replace [0, 1] [0, 1 / 2] [1 / 10, 1]) ctx0 q0 1 0 ()
-    = .ok (1 / 20, ()) := by
-  simp only [CompModel.get, QM.bind_apply, locals0, liftE_ok]
-  simp only [List.contains_eq_mem, List.mem_cons, one_ne_zero, List.not_mem_nil, or_false, or_true, decide_true,
-    ↓reduceIte, idx, one_div, List.length_cons, List.length_nil, zero_add, Nat.reduceAdd, Order.lt_two_iff, zero_le,
-    getElem?_pos, List.getElem_cons_zero, drawUniform, bind_pure_comp, applyOp, bind_pure, QM.bind_apply, liftE_ok,
-    sub_zero, add_zero]
-  rw [QM.map_apply]
-  show (Except.ok ((10 : ℚ)⁻¹ * (1 / 2), ()) : Except Err (ℚ × Unit)) = _
-  norm_num
-end C15cex
+theorem halfGen_unit (g : Unit) :
+    0 ≤ (@RandGen.canonical Unit ℚ halfGen g).1 ∧ (@RandGen.canonical Unit ℚ halfGen g).1 < 1 := by
+  show (0 : ℚ) ≤ 1 / 2 ∧ (1 / 2 : ℚ) < 1; norm_num
+end C15ex
 
-/-- **C15 (finding)** the per-composition bounds statement fails: the second listed composition is drawn from the first one's bounds -/
-theorem C15_random_composition_bounds_full_false : ¬ C15_random_composition_bounds_full := by
-  intro h
-  have hcan : ∀ g : Unit, 0 ≤ (@RandGen.canonical Unit ℚ C15cex.halfGen g).1 ∧ (@RandGen.canonical Unit ℚ C15cex.halfGen g).1 < 1 := by
-    intro g; show (0 : ℚ) ≤ 1 / 2 ∧ (1 / 2 : ℚ) < 1; norm_num
-  have := @h ℚ _ _ _ Unit C15cex.halfGen C15cex.T0 hcan C15cex.rng0 .replace [0, 1] [0, 1 / 2] [1 / 10, 1] C15cex.ctx0 C15cex.q0
-    1 0 (0, 10) 1 (1 / 2) 1 C15cex.locals0 (by decide) rfl rfl (by norm_num) () _ () C15cex.get0
-  obtain ⟨c, h1, _, h3⟩ := this
-  have : c = 1 / 20 := h3.symm
-  rw [this] at h1
-  norm_num at h1
+/-- the hypotheses of `C15_random_composition_bounds` are satisfiable: compositions `[0, 1]` with bounds `[0, 0.1]` and `[0.5, 1]`;
+composition 1 (position 1) is drawn from `[0.5, 1]` — the world that exhibited the former index-0 defect -/
+example : Post (G := Unit) (@CompModel.get ℚ (fieldScalar C15ex.T0) Unit C15ex.halfGen
+      (.random C15ex.rng0 .replace [0, 1] [0, 1 / 2] [1 / 10, 1]) C15ex.ctx0 C15ex.q0 1 0)
+    (fun r => ∃ v : ℚ, 1 / 2 ≤ v ∧ v ≤ 1 ∧ ((1 / 2 : ℚ) < 1 → v < 1) ∧ r = @applyOp ℚ (fieldScalar C15ex.T0) .replace 0 v) :=
+  @C15_random_composition_bounds ℚ _ _ _ Unit C15ex.halfGen C15ex.T0 C15ex.halfGen_unit C15ex.rng0 .replace [0, 1] [0, 1 / 2] [1 / 10, 1]
+    C15ex.ctx0 C15ex.q0 1 0 (0, 10) 1 (1 / 2) 1
+    C15ex.locals0 (by decide) rfl rfl (by norm_num)
 
 /-! ### 6. determinism -/
 
@@ -392,12 +372,12 @@ example : @M3.IsRotation ℝ (fieldScalar realTransc) (@arvoMatrix ℝ (fieldSca
     (fun x => by show Real.sin x * Real.sin x + Real.cos x * Real.cos x = 1; nlinarith [Real.sin_sq_add_cos_sq x])
     (fun x hx => Real.mul_self_sqrt hx) _ _ _ (by norm_num) (by norm_num)
 
-/-- the hypotheses of the size theorems hold in the counterexample world (fixed size ¼, no normalisation) -/
-example : Post (G := Unit) (@GrainsModel.get ℚ (fieldScalar C15cex.T0) Unit C15cex.halfGen
-      (.randomUniform C15cex.rng0 [0] [1 / 4] [false]) C15cex.ctx0 C15cex.q0 0 ⟨[0, 0], [default, default]⟩)
+/-- the hypotheses of the size theorems hold in the example world (fixed size ¼, no normalisation) -/
+example : Post (G := Unit) (@GrainsModel.get ℚ (fieldScalar C15ex.T0) Unit C15ex.halfGen
+      (.randomUniform C15ex.rng0 [0] [1 / 4] [false]) C15ex.ctx0 C15ex.q0 0 ⟨[0, 0], [default, default]⟩)
     (fun new => new.sizes.length = 2 ∧ ∀ s ∈ new.sizes, s = 1 / 4) :=
-  @C15_fixed_sizes_as_given ℚ _ _ _ Unit C15cex.halfGen C15cex.T0
-    (fun g => by show (0 : ℚ) ≤ 1 / 2 ∧ (1 / 2 : ℚ) < 1; norm_num) _ _ _ _ _ _ _ _ (0, 10) 0 (1 / 4)
-    C15cex.locals0 (by decide) rfl rfl (by norm_num)
+  @C15_fixed_sizes_as_given ℚ _ _ _ Unit C15ex.halfGen C15ex.T0
+    C15ex.halfGen_unit _ _ _ _ _ _ _ _ (0, 10) 0 (1 / 4)
+    C15ex.locals0 (by decide) rfl rfl (by norm_num)
 
 end Gwb
